@@ -265,7 +265,7 @@ def _first_diff(a, b) -> str:
 @st.composite
 def loader_case(draw):
     big = draw(st.sampled_from([False, True, False]))
-    o = Opts(steps=[0, 1, 2, 3], w_launch=6, w_sync=2, max_top=3, streams=2, rank_vocab=VOCABS, ensure_kernel=True)
+    o = Opts(steps=[0, 1, 2, 3], w_launch=6, w_sync=2, max_top=3, streams=2, rank_vocab=VOCABS, ensure_kernel=True, cuda_events=True)
     case = draw(sim_case(o, max_ranks=4, nranks_choices=[2, 3, 4, 2]))
     if big:
         # one rank with more than 127 distinct names, so that symbols of the other ranks get ids beyond a narrow dtype
